@@ -786,6 +786,44 @@ def tidy(fn_node):
     fn_node.body = block(fn_node.body) or [ast.Pass(lineno=fn_node.lineno, col_offset=fn_node.col_offset)]
 
 
+def normalize_guards(prog):
+    """Analysis-time normal form applied to every function before anything else: `if c: <ends in return / raise /
+    continue / break> else: REST` is read as the guard clause `if c: ...` followed by REST (an `elif` chain is left
+    alone).  The two spellings are equivalent; the code base writes guard clauses, and a rule that looks for "the loop in
+    the function body" must find it whichever way a later edit writes the early exit.  Returns the number of rewrites."""
+    count = 0
+
+    def block(stmts):
+        nonlocal count
+        out = []
+        for st in stmts:
+            if isinstance(st, ast.ClassDef):
+                st.body = block(st.body)
+                out.append(st)
+                continue
+            for field in ("body", "orelse", "finalbody"):
+                sub = getattr(st, field, None)
+                if isinstance(sub, list) and sub and isinstance(sub[0], ast.stmt):
+                    setattr(st, field, block(sub))
+            for h in getattr(st, "handlers", []):
+                h.body = block(h.body)
+            if isinstance(st, ast.If) and st.orelse and _leaves(st.body) \
+                    and not (len(st.orelse) == 1 and isinstance(st.orelse[0], ast.If) and st.orelse[0].col_offset == st.col_offset):
+                rest, st.orelse = st.orelse, []
+                out.append(st)
+                out.extend(rest)
+                count += 1
+                continue
+            out.append(st)
+        return out
+    for m in prog.modules.values():
+        m.tree.body = block(m.tree.body)
+        for n in ast.walk(m.tree):
+            for ch in ast.iter_child_nodes(n):
+                ch._parent = n
+    return count
+
+
 def apply(prog):
     """Inline transparent helpers everywhere (helpers first, so that helpers of helpers are flattened); returns the
     report {helper key: sorted caller keys}."""
